@@ -28,13 +28,17 @@ WF_PRELUDE = ["hvnum.ml", "hvdump.ml"]
 # clauses of wf_check that talk about sets / ids / root type only: what the FIXME in hwloc_look_xml
 # says is never validated on import
 SET_CLAUSES = {
-    "cpuset-not-in-parent", "cpuset-not-in-complete", "cpuset-not-disjoint-union-of-children", "complete-cpuset-not-in-parent",
-    "complete-nodeset-not-in-parent", "nodeset-not-in-parent", "nodeset-not-in-complete", "nodeset-not-inherited-local-children",
-    "local-nodesets-intersect", "local-nodeset-intersects-inherited", "children-nodeset-contributions-intersect",
-    "memory-cpuset-differs-from-parent", "pu-cpuset", "pu-complete-cpuset", "pu-os-index-duplicate", "pu-not-allowed",
-    "numa-nodeset", "numa-complete-nodeset", "numa-os-index-duplicate", "numa-not-allowed", "gp-index-duplicate",
-    "allowed-nodeset-not-in-root", "allowed-nodeset-differs-from-root", "allowed-cpuset-not-in-root", "allowed-cpuset-differs-from-root",
-    "children-order", "memory-children-order", "root-not-machine", "machine-level", "no-numa-node", "sets-missing", "total-memory",
+    # observed today on accepted documents (three seeds of the quick tier)
+    "allowed-nodeset-differs-from-root", "allowed-nodeset-not-in-root", "children-nodeset-contributions-intersect", "children-order",
+    "cpuset-not-disjoint-union-of-children", "cpuset-not-in-complete", "gp-index-duplicate", "local-nodesets-intersect", "machine-level",
+    "memory-children-order", "memory-cpuset-differs-from-parent", "nodeset-not-in-complete", "numa-complete-nodeset",
+    "numa-os-index-duplicate", "pu-complete-cpuset", "pu-os-index-duplicate", "root-not-machine", "total-memory",
+    # same cause (no cross-object validation of sets), not guarded by any importer check either
+    "allowed-cpuset-differs-from-root", "allowed-cpuset-not-in-root", "complete-cpuset-not-in-parent", "complete-nodeset-not-in-parent",
+    "cpuset-not-in-parent", "nodeset-not-in-parent", "nodeset-not-inherited-local-children", "local-nodeset-intersects-inherited",
+    "pu-not-allowed", "numa-not-allowed",
+    # NOT here: pu-cpuset, numa-nodeset, sets-missing, no-numa-node, cache-attr-vs-type, child-kind ...: the importer
+    # checks those per object (topology-xml.c validity checks); seeing them on a loaded topology is a new violation
 }
 OSDEV_KNOWN_BITS = 0x3f | 0x40   # STORAGE..OPENFABRICS, DMA
 
@@ -183,6 +187,8 @@ def classify_crash(job):
     if job.backend == 0 and phase == "load" and kind == "asan-SEGV" and re.match(rb'<topology version="\d+\.\d+', body) and b">" not in body \
        and any(f.startswith(("hwloc__nolibxml_import", "hwloc_nolibxml_look_init")) for f in funcs):
         return "look-init-no-gt", "hwloc_nolibxml_look_init: strchr(buffer,'>')+1 with no '>' after <topology version=\"x.y\" (NULL+1 handed to the tokenizer): " + where
+    if kind == "asan-stack-overflow" and "hwloc__xml_import_object" in funcs:
+        return "deep-nesting-stack-overflow", "hwloc__xml_import_object recurses once per nesting level without any bound: a document with tens of thousands of nested <object> elements exhausts the stack (SIGSEGV also without sanitizers): " + where
     if "Assertion `obj->attr->bridge.downstream_type" in err:
         return "bridge-type-unvalidated-assert", "bridge_type values are imported unchecked (FIXME in hwloc__xml_import_object_attr): hwloc_obj_type_snprintf() asserts downstream_type == HWLOC_OBJ_BRIDGE_PCI: " + where
     if top[0] == "hwloc_internal_memattrs_dup" and "null pointer passed" in err:
@@ -374,6 +380,13 @@ def make_jobs(run, exe, scratch):
     for nb in ([65536] if quick else [65536, 65537, 4294967295]):
         t = G.tiny_seed(False).replace(b'nbobjs="2"', b'nbobjs="%d"' % nb)
         add("topo", t, "boundary:distances-nbobjs-%d" % nb, backends=(0,), tflags=0, opts=4)
+    # 7. nesting depth: one C stack frame of hwloc__xml_import_object per level
+    depth = 30000
+    o = b'<object type="Group" cpuset="0x1" complete_cpuset="0x1" nodeset="0x1" complete_nodeset="0x1" kind="0" subkind="0">'
+    deep = (b'<topology version="2.0"><object type="Machine" os_index="0" cpuset="0x1" complete_cpuset="0x1" allowed_cpuset="0x1" nodeset="0x1" complete_nodeset="0x1" allowed_nodeset="0x1" gp_index="1">'
+            b'<object type="NUMANode" os_index="0" cpuset="0x1" complete_cpuset="0x1" nodeset="0x1" complete_nodeset="0x1" local_memory="1024"/>' + o * depth +
+            b'<object type="PU" os_index="0" cpuset="0x1" complete_cpuset="0x1" nodeset="0x1" complete_nodeset="0x1"/>' + b"</object>" * depth + b"</object></topology>")
+    add("topo", deep, "boundary:nesting-depth-%d" % depth, backends=(0, 1), tflags=0, opts=0)
     return jobs
 
 
@@ -416,12 +429,24 @@ def tok_correspondence(run, jobs, scratch):
     except Exception as e:  # model not buildable: reported through the proof obligations
         run.cov["tokenizer_correspondence"] = "not run: %s" % str(e)[:300]
         return
-    seen, inputs = set(), []
+    # the extracted model works on lists (a store copies the block): cost grows faster than the square of the
+    # size, so the bulk of the comparison uses documents up to 2 KB (quick) / 6 KB (thorough) plus a few larger ones
+    quick = run.tier == "quick"
+    seen, inputs, big = set(), [], 0
     for j in jobs:
-        if j.kind in ("topo", "diff") and len(j.data) <= 20000 and (j.kind, j.data) not in seen:
-            seen.add((j.kind, j.data))
-            inputs.append(j)
-    lim = 2500 if run.tier == "quick" else 60000
+        if j.kind not in ("topo", "diff") or (j.kind, j.data) in seen:
+            continue
+        if len(j.data) <= (2000 if quick else 6000):
+            pass
+        elif len(j.data) <= 6000 and quick and big < 24:
+            big += 1
+        elif len(j.data) <= 16000 and not quick and big < 64:
+            big += 1
+        else:
+            continue
+        seen.add((j.kind, j.data))
+        inputs.append(j)
+    lim = 2200 if quick else 60000
     inputs = inputs[:lim]
     lst = os.path.join(scratch, "toklist")
     with open(lst, "w") as f:
@@ -462,7 +487,11 @@ def tok_correspondence(run, jobs, scratch):
 
 # ------------------------------------------------------------------ check ----
 def check(run, replay=None):
+    import time
+    tm = {}
+    t0 = time.time()
     proof = C.prove("C06")
+    tm["prove"] = round(time.time() - t0, 1)
     exe = C.build_harness("hwv_xmlfuzz", ["hwv_xmlfuzz.c"], deps=DEPS)
     wfdrv = C.extract("C01", "drv_c01.ml", prelude=WF_PRELUDE)
     scratch = tempfile.mkdtemp(prefix="hwv-c06-", dir=os.environ.get("TMPDIR", "/tmp"))
@@ -472,9 +501,12 @@ def check(run, replay=None):
             jobs = [Job(kind, b, me, tf, op, data, "replay")]
         else:
             jobs = make_jobs(run, exe, scratch)
+        t0 = time.time()
         run_jobs(exe, jobs, scratch)
+        tm["harness"] = round(time.time() - t0, 1)
         # a watchdog hit is confirmed alone with three times the limit (the machine may be loaded by other checks)
-        slow = [j for j in jobs if j.status in ("signal:14", "signal:24")]
+        # (SIGXCPU = 5 s of CPU time spent by the job itself: load-independent, not re-run)
+        slow = [j for j in jobs if j.status == "signal:14"]
         if slow:
             again = [Job(j.kind, j.backend, j.method, j.tflags, j.opts, j.data, j.origin) for j in slow]
             d2 = tempfile.mkdtemp(dir=scratch)
@@ -482,7 +514,9 @@ def check(run, replay=None):
             for j, a in zip(slow, again):
                 j.out, j.err, j.status = a.out, a.err, a.status
                 run.bump("watchdog-confirmed" if a.status in ("signal:14", "signal:24") else "watchdog-not-confirmed")
+        t0 = time.time()
         wf = wf_verdicts(jobs, wfdrv)
+        tm["wf_check"] = round(time.time() - t0, 1)
         found = {}
         for j in jobs:
             vs = judge(run, j, wf.get(j.id))
@@ -504,7 +538,10 @@ def check(run, replay=None):
                 except Exception:
                     jj = j
             run.violation(key, what, jj.replay_text() + "--- harness output (tail)\n" + "\n".join(l for l in j.out.split("\n") if not re.match(r"[TLDOE]( |$)", l))[-1500:] + "\n--- sanitizer output (head)\n" + j.err[:2500])
+        t0 = time.time()
         tok_correspondence(run, jobs, scratch)
+        tm["tokenizer_correspondence"] = round(time.time() - t0, 1)
+        run.cov["timing_s"] = tm
     finally:
         shutil.rmtree(scratch, ignore_errors=True)
     run.cov["rule"] = ("one evaluation = one (input bytes, backend, entry point, flags, callback) job run by the real library under ASan/UBSan/LSan with a 5 s watchdog; "
